@@ -388,6 +388,9 @@ def run(tier):
         r.functions = [dict(file='containers.py', fn='Vector.' + f, trusted=[], nonterminating=[], cutloops=0, unrolled=0, terminating=0)
                        for f in ('__init__', '__checkvalues__', 'values.setter', '__setattr__', '__setitem__', 'reset', 'clone', 'to_dict', 'from_dict')]
         r.extra['paths_explored'] = npaths; r.extra['configurations'] = len(cfgs)
+    except (engp.Unsupported, engp.PathLimit) as e:
+        # the code under analysis uses a construct the symbolic executor does not support (e.g. after a change of the code): undecided, not a crash
+        r.undecided.append('Engine P cannot execute the current code symbolically: %s' % (str(e)[:300],))
     except Exception:
         r.broken.append('C12 driver crashed: ' + traceback.format_exc()[-2500:])
     r.assumptions += ['structural sizes are enumerated (0..4 names as quantified by the property; for 3 and 4 names the four bound patterns are rotated over the elements instead of all 4^n combinations); values, bounds and defaults are symbolic',
